@@ -353,6 +353,9 @@ def r13_continue(f):
                     raise RuleError("R13: `continue` in a for body outside the supported shape at line %d" % c[k].line)
 
 
+SEEN_RANGE_SHA = {}
+
+
 def subst(f, pairs, rule):
     """anchored substitution (R12 and friends): each `before` token sequence must occur exactly `count` times"""
     for p in pairs:
@@ -368,6 +371,13 @@ def subst(f, pairs, rule):
             h2, n2 = find(p["to"], h1[0] + n1)
             if len(h2) != 1:
                 raise RuleError("%s: range end `%s` found %d times after the start (expected 1)" % (rule, p["to"][:60], len(h2)))
+            # the replaced text is ASSUMED to behave like `after`: its fingerprint is recorded in unit.json, and a change of the text
+            # makes the unit undecided (the finder decides) instead of leaving a stale assumption in place
+            import hashlib
+            fp = hashlib.sha256(" ".join(t.text for t in c[h1[0]:h2[0] + n2]).encode()).hexdigest()[:16]
+            SEEN_RANGE_SHA[p["from"]] = fp
+            if p.get("sha256") and p["sha256"] != fp:
+                raise RuleError("%s: the text between `%s` and `%s`, which the unit replaces by an assumed call, has changed (fingerprint %s, recorded %s): the assumption may no longer describe it" % (rule, p["from"][:40], p["to"][:30], fp, p["sha256"]))
             f.apply([(c[h1[0]].pos, c[h2[0] + n2 - 1].end, p["after"])], p.get("rule", rule))
             continue
         want = [t.text for t in tokenize(p["before"])]
